@@ -16,12 +16,27 @@ from .interp import Interp, Config
 from . import api
 
 
+MERGE_CALLS = [
+    "joserfc.rfc7515.registry.JWSRegistry.check_header",
+    "joserfc.rfc7797.registry.JWSRegistry.check_header",
+    "joserfc.rfc7516.registry.JWERegistry.check_header",
+    "joserfc.rfc7517.models.BaseKey.check_use",
+    "joserfc.rfc7517.models.BaseKey.check_alg",
+    "joserfc.rfc7517.models.BaseKey.check_key_op",
+    "joserfc.rfc7515.model.JWSAlgModel.check_key_type",
+    "joserfc.rfc7516.models.KeyManagement.check_key_type",
+    "joserfc.rfc7517.models.BaseKey.validate_dict_key",
+]
+
+
 def default_config():
     cfg = Config()
     cfg.interp_prefixes = ("joserfc", "props", "contracts", "pyvc.api")
     from . import trusted, harness
     trusted.install(cfg)
     harness.install(cfg)
+    # pure validators whose internal paths are merged at the call (exact: one continuation per outcome class)
+    cfg.merge_calls = set(MERGE_CALLS)
     try:
         from . import trusted_crypto
         trusted_crypto.install(cfg)
@@ -293,7 +308,7 @@ def run_harness(fn, name=None, cfg=None, solver_timeout_ms=10000, max_paths=2000
         cfg.contracts[q] = _contracts.REGISTRY[q]
     res = HarnessResult(name)
     t00 = time.time()
-    ctx = Ctx(timeout_ms=int(os.environ.get('PYVC_FEAS_MS', '20')))
+    ctx = Ctx(timeout_ms=int(os.environ.get('PYVC_FEAS_MS', '10')))
     ctx.max_paths = max_paths
 
     label_bad = {}
@@ -313,6 +328,8 @@ def run_harness(fn, name=None, cfg=None, solver_timeout_ms=10000, max_paths=2000
             s = ctx.solver
             s.set("timeout", solver_timeout_ms)
             s.push()
+            for lz in ctx.lazy:
+                s.add(lz)
             s.add(z3.Not(goal))
             r = s.check()
             if r == z3.unsat:
@@ -517,11 +534,20 @@ def search_native(fn, label, kinds, pool, seed=0, budget_s=8.0, max_trials=20000
     rnd = _random.Random(seed * 7919 + hash(label) % 1000)
     pool = [p for p in pool if len(p) < 40][:60]
     seeds = [dict((k, _freeze(v)) for k, v in sd.items()) for sd in getattr(fn, "seeds", [])]
+    seed_fn = getattr(fn, "seed_fn", None)
     t0 = time.time()
     n = 0
     while n < max_trials and time.time() - t0 < budget_s:
         n += 1
-        if seeds and rnd.random() < 0.85:
+        if seed_fn is not None and rnd.random() < 0.7:
+            try:
+                inputs = dict((k, _freeze(v)) for k, v in seed_fn(rnd).items())
+            except Exception:
+                inputs = {}
+            for name, k in kinds.items():
+                if name not in inputs:
+                    inputs[name] = _gen_input(rnd, k[0], k[1], pool)
+        elif seeds and rnd.random() < 0.85:
             inputs = dict(rnd.choice(seeds))
             for name, k in kinds.items():
                 if name not in inputs:
